@@ -927,6 +927,8 @@ class SArr(object):
 
     def astype(self, t):
         import numpy as _np
+        from . import shim_np
+        t = shim_np._dt(t)
         c = self.copy()
         if t in (float, _np.float32, _np.float64, "float"):
             if self.dtype == "bool":
@@ -999,6 +1001,22 @@ class SArr(object):
     def __truediv__(self, o): return self._arith(o, num_div)
     def __rtruediv__(self, o): return self._arith(o, num_div, True)
     def __mod__(self, o): return self._arith(o, num_mod)
+    def _inplace(self, new):
+        """x op= y: numpy writes the result into x's own storage (visible through every alias of x)"""
+        if self.tmap is not None or self.sel is not None:
+            raise Unsupported("in-place arithmetic through a view or on a filtered array")
+        if new is NotImplemented:
+            return new
+        g = new._snapshot()
+        dtype = self.dtype
+        self.store.get = lambda idx: _conv(dtype, g(idx))
+        return self
+
+    def __iadd__(self, o): return self._inplace(self + o)
+    def __isub__(self, o): return self._inplace(self - o)
+    def __imul__(self, o): return self._inplace(self * o)
+    def __itruediv__(self, o): return self._inplace(self / o)
+
     def __neg__(self):
         g = self._snapshot()
         return self._like(lambda idx: num_neg(SNum.lift(self._num(g(idx)))), "float")
@@ -1448,6 +1466,8 @@ def sum_atom(axes, term_fn, integer=False):
                 return at.const
     c = CTX.fresh("sum", "int" if integer else "real")
     at = Atom("sum", tuple(axes), term_fn, c, extra=integer)
+    # a sum over an empty index domain is 0
+    CTX.facts.append(z3.Implies(z3.Or(*[ax.size.v <= 0 for ax in axes]), c == 0))
     if eng.entails(z3.Implies(R, t >= 0)):
         at.nonneg = True
         CTX.facts.append(c >= 0)
